@@ -7,6 +7,8 @@ package main
 import (
 	"encoding/json"
 	"fmt"
+	"os"
+	"runtime/pprof"
 	"sort"
 	"strings"
 	"time"
@@ -131,9 +133,13 @@ func addOrder(n int, order string) []int {
 // stepping with the full oracle
 
 // stepChecked applies op on the implementation, steps the model and runs every check.
-func stepChecked(im *pool.Impl, ref *pool.Ref, op pool.Op) (pool.Obs, pool.Dump, []pool.Finding) {
+// full=false (used for the long add runs of the limit scenarios) checks the return value only.
+func stepChecked(im *pool.Impl, ref *pool.Ref, op pool.Op, full bool) (pool.Obs, pool.Dump, []pool.Finding) {
 	obs := op.Apply(im)
 	fs := ref.Step(op, obs)
+	if !full {
+		return obs, pool.Dump{}, fs
+	}
 	d := im.Dump()
 	fs = append(fs, ref.Compare(op, d)...)
 	fs = append(fs, pool.Sweep(im, ref, d)...)
@@ -155,14 +161,16 @@ func sigsOf(fs []pool.Finding) string {
 
 // runHistory runs ops with the full oracle after every step on a fresh pool and
 // returns the findings of the first failing step (and its index), if any.
-func runHistory(env *pool.Env, ops []pool.Op, expiry bool) (int, []pool.Finding) {
-	im := env.NewImpl(expiry)
+// In a limit scenario (limit=true) the pool is built with the production container
+// constructor and an add is fully checked only when it is the last one of a run of adds.
+func runHistory(env *pool.Env, ops []pool.Op, limit bool) (int, []pool.Finding) {
+	im := env.NewImpl(limit)
 	ref := pool.NewRef(env.U)
 	for i, op := range ops {
 		if op.Kind == "mark" && op.Txs == nil && op.Evicted == nil { // "mark the last batch"
 			op.Txs = append([]int(nil), ref.LastBatch...)
 		}
-		_, _, fs := stepChecked(im, ref, op)
+		_, _, fs := stepChecked(im, ref, op, fullAt(ops, i, limit))
 		if len(fs) > 0 {
 			return i, fs
 		}
@@ -170,17 +178,25 @@ func runHistory(env *pool.Env, ops []pool.Op, expiry bool) (int, []pool.Finding)
 	return -1, nil
 }
 
+func fullAt(ops []pool.Op, i int, limit bool) bool {
+	return !limit || ops[i].Kind != "add" || i+1 == len(ops) || ops[i+1].Kind != "add"
+}
+
 // report confirms a failing history by running it again from scratch (same input,
 // same observation required) and records one violation per signature.
-func report(c *fw.Ctx, env *pool.Env, ops []pool.Op, fs []pool.Finding, part string, expiry bool) {
-	at, again := runHistory(env, ops, expiry)
-	if sigsOf(again) != sigsOf(fs) || (at != len(ops)-1 && at != -1) {
+func report(c *fw.Ctx, env *pool.Env, ops []pool.Op, fs []pool.Finding, part string, limit bool) {
+	at, again := runHistory(env, ops, limit)
+	same := at == len(ops)-1
+	for _, f := range fs { // every signature must show again (the re-run may check more: last add of a limit run is checked fully)
+		same = same && strings.Contains(","+sigsOf(again)+",", ","+f.Sig+",")
+	}
+	if !same {
 		c.Violation("C17:nondeterministic", part, fmt.Sprintf("history %s gave %s first and %s (step %d) when run again",
 			pool.HistString(env.U, ops), sigsOf(fs), sigsOf(again), at), kase{Universe: env.U.Name, Ops: ops})
 		return
 	}
 	seen := map[string]bool{}
-	for _, f := range fs {
+	for _, f := range again {
 		if seen[f.Sig] {
 			continue
 		}
@@ -275,7 +291,7 @@ func bfs(c *fw.Ctx, env *pool.Env, gen pool.Gen, depth, shardAt int) {
 				}
 				ref := nd.ref.Clone()
 				npend := len(ref.Pending)
-				obs, d, fs := stepChecked(im, ref, op)
+				obs, d, fs := stepChecked(im, ref, op, true)
 				hist := append(append(make([]pool.Op, 0, len(nd.hist)+1), nd.hist...), op)
 				nt := nd.nontriv || op.Kind == "mark" || (op.Kind == "pack" && len(obs.Batch) > 0)
 				if counting {
@@ -358,7 +374,7 @@ func limits(c *fw.Ctx) {
 					if op.Kind == "mark" && op.Txs == nil {
 						op.Txs = append([]int(nil), ref.LastBatch...)
 					}
-					obs, _, fs := stepChecked(im, ref, op)
+					obs, _, fs := stepChecked(im, ref, op, fullAt(ops, i, true))
 					if op.Kind == "pack" {
 						c.Outcome(fmt.Sprintf("limit:%s:batch=%d", shape, len(obs.Batch)))
 						c.Count("limit_batches_checked", 1)
@@ -382,18 +398,35 @@ func limits(c *fw.Ctx) {
 // ---------------------------------------------------------------------------------
 
 func run(c *fw.Ctx) {
+	if pf := os.Getenv("C17_PROF"); pf != "" && c.Shard == 0 {
+		f, _ := os.Create(pf)
+		pprof.StartCPUProfile(f)
+		defer pprof.StopCPUProfile()
+	}
 	if err := pool.Boot(); err != nil {
 		panic(err)
 	}
 	u, gen, depth, shardAt := bfsUniverse(c.Tier)
+	if v := os.Getenv("C17_DEPTH"); v != "" {
+		fmt.Sscan(v, &depth)
+	}
+	if v := os.Getenv("C17_SHARDAT"); v != "" {
+		fmt.Sscan(v, &shardAt)
+	}
 	env := pool.NewEnv(u)
 	if err := env.VerifySigned(); err != nil {
 		panic("harness: " + err.Error())
 	}
 	c.Note("bfs_depth", depth)
 	c.Note("bfs_universe", fmt.Sprintf("%d transactions / %d hashes, %d pack states", u.N(), u.NH(), gen.NK))
+	t0 := time.Now()
 	limits(c)
+	t1 := time.Now()
 	bfs(c, env, gen, depth, shardAt)
+	if c.Shard == 0 {
+		c.Note("shard0_limit_s", t1.Sub(t0).Seconds())
+		c.Note("shard0_bfs_s", time.Since(t1).Seconds())
+	}
 }
 
 func envFor(name string) (*pool.Env, bool) {
